@@ -1,7 +1,7 @@
 SPECIFICATION Spec
 CONSTANTS
   MapDefs <- MCMapDefs
-  FlagSet <- MCFlagsAll
+  FlagSet <- MCFlagsThorough
   Boxes <- MCBoxes
   Confs <- MCConfs
   Bases <- MCBasesQ
